@@ -71,11 +71,15 @@ pub fn run(cx: &mut Ctx) {
                 let mut start = DecompTree::random_decomp(&g, &mut r0);
                 let w0 = start.rankwidth(&g);
                 let mut ann = RankwidthAnnealer::new_with_decomp(g.clone(), start.clone(), SmallRng::seed_from_u64(seed));
-                ann.set_iterations(300);
+                // "all annealer parameter settings": iterations, initial / minimal temperature, cooling rate and adaptive cooling vary with the seed
+                let k = seed % 6;
+                ann.set_iterations([300, 40, 1, 150, 300, 80][k as usize]);
+                if k >= 1 { ann.set_init_temp([5.0, 0.5, 50.0, 1.0, 5.0, 0.05][k as usize]); ann.set_min_temp([0.01, 0.001, 0.4, 0.9, 0.01, 0.01][k as usize]);
+                            ann.set_cooling_rate([0.99, 0.5, 0.999, 0.9, 0.95, 0.7][k as usize]); ann.set_adaptive_cooling(k % 2 == 0); }
                 let mut res = ann.run();
                 valid(&res, &g)?;
                 let w1 = { res.clear_ranks(); res.rankwidth(&g) };
-                if w1 > w0 { return Err(format!("the annealer returned width {} from a start of width {}", w1, w0)); }
+                if w1 > w0 { return Err(format!("the annealer (parameter setting {}) returned width {} from a start of width {}", k, w1, w0)); }
                 Ok(())
             }).and_then(|r| r);
             cb(&|| format!("n={} graph/rng seed {}", n, seed), v);
